@@ -190,6 +190,8 @@ def run(ctx):
     R = ktloops.remove_mapping_analysis(ctx, K)
     ck.ob("C02-T1", MOD + "remove_mapping", "sweep-and-scan-shapes", not R.problems, detail="; ".join(R.problems)[:300] or None)
     ck.ob("C02-T1", MOD + "remove_mapping", "both-scans-present", set(R.flags) == {"used", "shadowed"}, detail=str(sorted(R.flags)))
+    ck.ob("C02-T1", MOD + "remove_mapping", "scans-see-active_mappings-as-it-was(removal-after-the-complete-sweep)", R.am_removed_after_sweep,
+          detail=None if R.am_removed_after_sweep else "active_mappings is modified before the sweep finishes: `j != i` no longer excludes exactly the mapping being removed")
     outcomes = set()
     for val, outcome, site in R.rows:
         want = ktloops.remove_mapping_spec(val)
